@@ -844,12 +844,15 @@ From Coupe Require Import Lib.SFloat.
 From Coq Require Import Floats.SpecFloat.
 
 (* the admitted values: +0 and the positive FINITE binary64 numbers (mantissa below 2^53, exponent in range) *)
-Definition okV (x : spec_float) : Prop :=
+Definition okV0 (x : spec_float) : Prop :=
   match x with
   | S754_zero s => s = false
   | S754_finite s m e => s = false /\ Zpos m < 2 ^ 53 /\ -1074 <= e <= 971
   | _ => False
   end.
+(* ... in their canonical representation (what f64_of_bits produces and the operations return) *)
+Definition okV (x : spec_float) : Prop := valid_binary 53 1024 x = true /\ okV0 x.
+
 (* their position in the order, as an integer: the order of the values is the order of (exponent, mantissa) *)
 Definition rankV (x : spec_float) : Z :=
   match x with
@@ -857,8 +860,10 @@ Definition rankV (x : spec_float) : Z :=
   | _ => 0
   end.
 
-Lemma okV_okF x : okV x -> okF x.
+Lemma okV0_okF x : okV0 x -> okF x.
 Proof. destruct x; cbn; tauto. Qed.
+Lemma okV_okF x : okV x -> okF x.
+Proof. intros [_ H]. now apply okV0_okF. Qed.
 
 Lemma F64_order_laws_V : order_laws F64arith okV.
 Proof.
@@ -869,21 +874,23 @@ Proof.
   - intros x y z Hx Hy Hz. apply L3; now apply okV_okF.
   - intros x y Hx Hy. apply L4; now apply okV_okF.
   - intros x y Hx Hy. apply L5; now apply okV_okF.
-  - reflexivity.
+  - split; reflexivity.
 Qed.
 
 Lemma rankV_nonneg x : okV x -> 0 <= rankV x.
-Proof. destruct x as [s|s| |s m e]; cbn [okV rankV]; lia. Qed.
+Proof. intros [_ H]. revert H. destruct x as [s|s| |s m e]; cbn [okV0 rankV]; lia. Qed.
 
 Lemma rankV_mono x y : okV x -> okV y -> SFltb x y = true -> rankV x < rankV y.
 Proof.
   intros Hx Hy H. apply (SFltb_rank x y (okV_okF x Hx) (okV_okF y Hy)) in H.
-  destruct x as [sx|sx| |sx mx ex], y as [sy|sy| |sy my ey]; cbn [okV rankV rankF lex3] in *; try tauto; try lia.
+  destruct Hx as [_ Hx], Hy as [_ Hy].
+  destruct x as [sx|sx| |sx mx ex], y as [sy|sy| |sy my ey]; cbn [okV0 rankV rankF lex3] in *; try tauto; try lia.
 Qed.
 
 Lemma okV_nonneg x : okV x -> SFltb x (S754_zero false) = false.
 Proof.
-  destruct x as [s|s| |s m e]; cbn [okV]; try tauto; intros H; try (destruct H as [H _]); subst; reflexivity.
+  intros [_ H]. revert H.
+  destruct x as [s|s| |s m e]; cbn [okV0]; try tauto; intros H; try (destruct H as [H _]); subst; reflexivity.
 Qed.
 
 (* the IEEE-754 facts about rounded + and - on those values that the termination proof uses; they are
